@@ -15,7 +15,7 @@ import (
 var ghostBuiltins = map[string]bool{
 	"requires": true, "ensures": true, "ensuresGoal": true, "ensuresTrusted": true, "assert": true, "assume": true, "imp": true, "iff": true, "old": true,
 	"forall": true, "exists": true, "forallIn": true, "existsIn": true, "forallStr": true, "modifiesTail": true, "modifiesElems": true, "modifiesPtr": true, "modifiesAll": true, "modifiesMap": true,
-	"freshSlice": true, "sameBase": true, "sameArray": true, "suffixOf": true, "viewOf": true, "offsetIn": true, "disjointFromTail": true, "bytesEq": true, "strBytesEq": true, "allocated": true, "sameOrDisjoint": true, "unchangedElems": true,
+	"freshSlice": true, "sameBase": true, "sameArray": true, "suffixOf": true, "viewOf": true, "offsetIn": true, "disjointFromTail": true, "bytesEq": true, "strBytesEq": true, "allocated": true, "sameOrDisjoint": true, "unchangedElems": true, "identical": true,
 	"covers": true,
 }
 
@@ -642,6 +642,28 @@ func (c *VC) intrinsic(st *State, fn *types.Func, call *ast.CallExpr) ([]*Term, 
 		}
 	}
 	switch name {
+	case "sort.Slice", "sort.SliceStable":
+		if r, ok := c.sortSliceIntrinsic(st, call); ok {
+			return r, true
+		}
+	case "strings.HasPrefix", "strings.HasSuffix", "bytes.HasPrefix", "bytes.HasSuffix":
+		// defined by the documentation: s begins (ends) with prefix (suffix)
+		asStr := func(e ast.Expr) *Term {
+			v := c.eval(st, e)
+			if u, ok := c.typeOf(e).Underlying().(*types.Slice); ok {
+				_, h := c.sliceHeap(st, u.Elem())
+				return mkCtor(c.strSort(), c.sel(h, mkField(v, "sl_base")), mkField(v, "sl_off"), mkField(v, "sl_len"))
+			}
+			return v
+		}
+		s, p := asStr(call.Args[0]), asStr(call.Args[1])
+		ls, lp := mkField(s, "st_len"), mkField(p, "st_len")
+		off := mkField(s, "st_off")
+		if strings.HasSuffix(name, "Suffix") {
+			off = c.binop(token.ADD, off, c.binop(token.SUB, ls, lp, it), it)
+		}
+		sub := mkCtor(c.strSort(), mkField(s, "st_arr"), off, lp)
+		return []*Term{mkAnd(c.cmp(token.GEQ, ls, lp, it), c.strEqual(sub, p))}, true
 	case "math.Float32bits", "math.Float64bits", "math.Float32frombits", "math.Float64frombits":
 		return []*Term{c.eval(st, call.Args[0])}, true
 	case "math/bits.LeadingZeros64", "math/bits.LeadingZeros32", "math/bits.LeadingZeros8", "math/bits.LeadingZeros16",
@@ -1226,6 +1248,7 @@ func (c *VC) specUF(st *State, fi *FuncInfo, args []*Term) []*Term {
 	res := resultObjs(fi)
 	name := "spec_" + sanitize(fi.Name)
 	r := c.uf(name, c.sortOf(res[0].Type()), uargs...)
+	c.specFrame(name, ps, args, uargs[len(args):], r)
 	if c.mode == ModeInt && !c.noName {
 		if _, signed, isInt := intInfo(res[0].Type()); !isInt || !signed {
 			if k := "rng:" + r.String(); !strings.Contains(k, "?") && !c.specAxioms[k] {
@@ -1255,6 +1278,161 @@ func (c *VC) specUF(st *State, fi *FuncInfo, args []*Term) []*Term {
 		}
 	}
 	return []*Term{r}
+}
+
+// sortSliceIntrinsic models sort.Slice(s, func(i, j int) bool { return <expr over s[i], s[j]> })
+// by its documented effect, ASSUMED (not verified; the comparator must be a strict weak order):
+// the elements of s are rearranged (a permutation, given by two mutually inverse index maps),
+// nothing else changes, and afterwards no later element is less than an earlier one.
+func (c *VC) sortSliceIntrinsic(st *State, call *ast.CallExpr) ([]*Term, bool) {
+	if len(call.Args) != 2 {
+		return nil, false
+	}
+	lit, ok := ast.Unparen(call.Args[1]).(*ast.FuncLit)
+	if !ok || len(lit.Body.List) != 1 {
+		return nil, false
+	}
+	ret, ok := lit.Body.List[0].(*ast.ReturnStmt)
+	if !ok || len(ret.Results) != 1 {
+		return nil, false
+	}
+	sl, ok := c.typeOf(call.Args[0]).Underlying().(*types.Slice)
+	if !ok {
+		return nil, false
+	}
+	tv, _ := c.cur().view.typeOf(lit)
+	sig, ok := tv.Type.(*types.Signature)
+	if !ok || sig.Params().Len() != 2 {
+		return nil, false
+	}
+	it := types.Typ[types.Int]
+	c.assumptions["sort.Slice is modelled by its documentation (result is a permutation of the input, sorted w.r.t. the comparator): assumed, standard library"] = true
+	s := c.eval(st, call.Args[0])
+	base, off, ln := mkField(s, "sl_base"), mkField(s, "sl_off"), mkField(s, "sl_len")
+	hn, h := c.sliceHeap(st, sl.Elem())
+	row0 := c.name("sortrow0", c.sel(h, base))
+	c.checkWrite(st, hn, base, off, c.binop(token.ADD, off, ln, it), call.Pos(), "sort.Slice")
+	row1 := c.fresh("sortrow", row0.Sort)
+	st.heaps[hn] = mkStore(h, base, row1)
+	c.freshN++
+	perm := fmt.Sprintf("sortperm!%d", c.freshN)
+	inv := fmt.Sprintf("sortinv!%d", c.freshN)
+	is := c.idxSort()
+	bnd := func(v *Term) {
+		if c.mode == ModeInt {
+			c.varBounds[v.Op] = interval{bigInt(0), pow2(maxLenBits)}
+		}
+	}
+	// frame: outside the window nothing moves
+	{
+		j := c.boundVar("j", is)
+		out := mkOr(c.cmp(token.LSS, j, off, it), c.cmp(token.GEQ, j, c.binop(token.ADD, off, ln, it), it))
+		c.facts = append(c.facts, mkForall([]*Term{j}, mkImplies(out, mkEq(mkSelect(row1, j), mkSelect(row0, j))), mkSelect(row1, j)))
+	}
+	// permutation, both directions
+	{
+		k := c.boundVar("k", is)
+		bnd(k)
+		in := mkAnd(c.cmp(token.LEQ, c.idxLit(0), k, it), c.cmp(token.LSS, k, ln, it))
+		pk := c.uf(perm, is, k)
+		c.facts = append(c.facts, mkForall([]*Term{k}, mkImplies(in, mkAnd(c.cmp(token.LEQ, c.idxLit(0), pk, it), c.cmp(token.LSS, pk, ln, it),
+			mkEq(mkSelect(row1, c.binop(token.ADD, off, k, it)), mkSelect(row0, c.binop(token.ADD, off, pk, it))))), mkSelect(row1, c.binop(token.ADD, off, k, it))))
+		k2 := c.boundVar("k", is)
+		bnd(k2)
+		in2 := mkAnd(c.cmp(token.LEQ, c.idxLit(0), k2, it), c.cmp(token.LSS, k2, ln, it))
+		ik := c.uf(inv, is, k2)
+		c.facts = append(c.facts, mkForall([]*Term{k2}, mkImplies(in2, mkAnd(c.cmp(token.LEQ, c.idxLit(0), ik, it), c.cmp(token.LSS, ik, ln, it),
+			mkEq(mkSelect(row0, c.binop(token.ADD, off, k2, it)), mkSelect(row1, c.binop(token.ADD, off, ik, it))))), mkSelect(row0, c.binop(token.ADD, off, k2, it))))
+	}
+	// sorted: for a < b, not less(b, a)
+	{
+		a, b := c.boundVar("a", is), c.boundVar("b", is)
+		bnd(a)
+		bnd(b)
+		sub := st.clone()
+		sub.pc = tTrue
+		sub.env[sig.Params().At(0)] = b
+		sub.env[sig.Params().At(1)] = a
+		saveNN := c.noName
+		c.noName = true
+		c.quantDepth++
+		c.ghost++
+		nf := len(c.facts)
+		body := c.evalCond(sub, ret.Results[0])
+		c.ghost--
+		c.quantDepth--
+		c.noName = saveNN
+		c.facts = c.facts[:nf]
+		rng := mkAnd(c.cmp(token.LEQ, c.idxLit(0), a, it), c.cmp(token.LSS, a, b, it), c.cmp(token.LSS, b, ln, it))
+		c.facts = append(c.facts, mkForall([]*Term{a, b}, mkImplies(rng, mkNot(body))))
+	}
+	return nil, true
+}
+
+// specApp records one application of a spec function kept as an uninterpreted symbol.
+type specApp struct {
+	args, rows []*Term
+	res        *Term
+}
+
+// specFrame: a spec function over a slice depends only on the slice's own window of the heap
+// row. Two applications with equal arguments whose rows agree on that window are equal even if
+// the rows differ elsewhere (e.g. after a write to another slice's spare capacity in the same
+// array). The fact is emitted ground, per pair of applications: no quantified axiom.
+func (c *VC) specFrame(name string, ps []*types.Var, args, rows []*Term, r *Term) {
+	d := c.fn.Dir
+	if c.fn.Contract != nil {
+		d = c.fn.Contract.Dir
+	}
+	if d == nil || !d.SpecFrame || c.noName || len(rows) == 0 || strings.Contains(r.String(), "?") {
+		return
+	}
+	if c.specApps == nil {
+		c.specApps = map[string][]specApp{}
+	}
+	key := r.String()
+	for _, a := range c.specApps[name] {
+		if a.res.String() == key {
+			return
+		}
+	}
+	prev := c.specApps[name]
+	c.specApps[name] = append(prev, specApp{args, rows, r})
+	if len(prev) > 16 {
+		prev = prev[len(prev)-16:]
+	}
+	it := types.Typ[types.Int]
+	for _, a := range prev {
+		same := true
+		for k := range rows {
+			if rows[k].String() != a.rows[k].String() {
+				same = false
+			}
+		}
+		if same {
+			continue // congruence
+		}
+		var conds []*Term
+		k := 0
+		for i, arg := range args {
+			if i >= len(ps) {
+				break
+			}
+			conds = append(conds, mkEq(arg, a.args[i]))
+			if _, ok := ps[i].Type().Underlying().(*types.Slice); ok {
+				if rows[k].String() != a.rows[k].String() {
+					j := c.boundVar("w", c.idxSort())
+					off, ln := mkField(arg, "sl_off"), mkField(arg, "sl_len")
+					pos := c.binop(token.ADD, off, j, it)
+					body := mkImplies(mkAnd(c.cmp(token.LEQ, c.idxLit(0), j, it), c.cmp(token.LSS, j, ln, it)),
+						mkEq(mkSelect(rows[k], pos), mkSelect(a.rows[k], pos)))
+					conds = append(conds, mkForall([]*Term{j}, body))
+				}
+				k++
+			}
+		}
+		c.facts = append(c.facts, mkImplies(mkAnd(conds...), mkEq(r, a.res)))
+	}
 }
 
 var _ = big.NewInt
